@@ -192,6 +192,32 @@ pub struct RaftWal<W: WalWriter = FileWriter> {
     config: WalConfig,
 }
 
+/// Length of the longest prefix of `path` that consists of complete
+/// `[len][checksum][payload]` frames. A crash can leave a partially written
+/// frame at the end of the file; appending after it would make every later
+/// record unreadable, so `open` cuts the file back to this length first.
+pub(crate) fn complete_frames_len(path: &Path) -> io::Result<u64> {
+    use std::io::{Seek, SeekFrom};
+    let mut file = match File::open(path) {
+        Ok(f) => f,
+        Err(e) if e.kind() == io::ErrorKind::NotFound => return Ok(0),
+        Err(e) => return Err(e),
+    };
+    let size = file.metadata()?.len();
+    let mut pos = 0u64;
+    let mut header = [0u8; 8];
+    while pos + 8 <= size {
+        file.seek(SeekFrom::Start(pos))?;
+        file.read_exact(&mut header)?;
+        let len = u64::from(u32::from_le_bytes([header[0], header[1], header[2], header[3]]));
+        if pos + 8 + len > size {
+            break;
+        }
+        pos += 8 + len;
+    }
+    Ok(pos)
+}
+
 impl RaftWal<FileWriter> {
     /// Open or create a WAL file with default configuration.
     ///
@@ -212,7 +238,15 @@ impl RaftWal<FileWriter> {
         let file = OpenOptions::new().create(true).append(true).open(&path)?;
 
         // Get current file size
-        let current_size = file.metadata().map(|m| m.len()).unwrap_or(0);
+        let mut current_size = file.metadata().map(|m| m.len()).unwrap_or(0);
+
+        // Drop a torn final frame left by a crash so new records stay readable.
+        let valid_len = complete_frames_len(&path)?;
+        if valid_len < current_size {
+            file.set_len(valid_len)?;
+            file.sync_all()?;
+            current_size = valid_len;
+        }
 
         // Count existing entries
         let entry_count = Self::count_entries(&path)?;
